@@ -94,6 +94,8 @@ def run_case(case):
                 h = L.Header(dst, typ)
                 if case.get("stale_from") is not None:
                     h.from_node = case["stale_from"]  # a header object used before by another node / taken from a received frame
+                if case.get("str_type"):
+                    h.message_type = chr(typ)  # documented: the attribute may be set using a one-character str
                 frame = L.Frame(h, msg)
             if case.get("again"):
                 held["frame"] = frame
@@ -287,6 +289,12 @@ def _enum(quick):
                 yield {"src": s, "dst": d, "type": typ, "msg": "c13f", "tx_timeout": 10, "route_timeout": 40, "fault": None, "nodes": _topology(s, d),
                        "stale_from": 0o3 if s != 0o3 else 0o4}
                 yield {"src": d, "dst": s, "type": typ, "msg": "5a" * 24, "tx_timeout": 10, "route_timeout": 40, "fault": None, "nodes": _topology(d, s)}
+        # the type assigned to the header attribute as a one-character str after construction
+        for hops, (s, d) in ROUTES.items():
+            for typ in (84, 33):
+                for f in [None] + ([["data", hops - 1], ["ack", 0]] if hops >= 2 and typ == 84 else []):
+                    yield {"src": s, "dst": d, "type": typ, "msg": "c13c", "tx_timeout": 10, "route_timeout": 40, "fault": f, "nodes": _topology(s, d),
+                           "str_type": True}
         # the same frame object written once or twice before (same frame id each time)
         for hops, (s, d) in ROUTES.items():
             for again in (1, 2):
